@@ -76,6 +76,12 @@ def vocabulary():
     add("call-try-local-4", P(g.call(I("rr"), [L(4)])), [])
     add("freeze-expr", P(g.freeze(g.binop("+", I("yy"), L(1)))), [])
     add("freeze-builtin-shadow", g.decl("rr", g.freeze(lam1(g.seq([g.decl("len", L(7)), g.binop("+", I("len"), I("aa"))])))), ["rr"])
+    # a negative literal is the CALL of whatever `-` names: frozen code that rebinds `-` locally keeps using its own
+    add("frozen-minus-shadow", g.decl("rm", g.freeze(lam1(g.seq([
+        g.decl("-", g.lam([g.param("xx")], g.binop("+", I("xx"), L(100)))),
+        g.lst([g.call(I("-"), [L(5)]), g.call(I("-"), [I("yy")]), g.call(I("-"), [I("aa")])])])))), ["rm"])
+    add("frozen-minus", g.decl("rm", g.freeze(lam1(g.lst([g.call(I("-"), [L(5)]), g.call(I("-"), [I("yy")]), g.call(I("-"), [I("aa")])])))), ["rm"])
+    add("call-rm", P(g.call(I("rm"), [L(1)])), [])
     # switch inside frozen code: each arm is a scope of its own; `literally e` is code in a pattern
     add("frozen-switch", g.decl("rw", g.freeze(lam1(g.switch(g.lst([I("aa"), I("yy")]), [
         (g.lv_tuple([g.lv_lit(0), g.lv_id("ww")]), g.binop("+", I("ww"), I("yy"))),
